@@ -91,10 +91,23 @@ if r7:
     out.append("  property's check, %d/%d (%d%%) by some check**; after the response %d/%d and %d/%d.  One new clause written for a seed" % (f7a, n7, round(100.0 * f7a / n7), sum(1 for r in r7 if r[4]), n7, sum(1 for r in r7 if r[5]), n7))
     out.append("  (records share the emission's `deleted` test) reported the *unmodified* import loop — the fourth defect found with the")
     out.append("  sub-agents' help (a5e88fa; §5b).")
+r8 = [r for r in rows if r[2] == 8]
+if r8:
+    n8 = len(r8)
+    f8t = sum(1 for r in r8 if r[7])
+    f8a = sum(1 for r in r8 if r[8])
+    out.append("* **Round 8** (%d changes for the ten properties last seeded in round 4: C01, C02, C06, C09, C11, C14, C20, C25, C26, C29;" % n8)
+    out.append("  twelve used sites shown per property).  First sight with the rules frozen at commit bada76b: **%d/%d (%d%%) by the target" % (f8t, n8, round(100.0 * f8t / n8)))
+    out.append("  property's check, %d/%d (%d%%) by some check**; after the response (made in the last half hour of the last session, so" % (f8a, n8, round(100.0 * f8a / n8)))
+    out.append("  shorter than for the other rounds) %d/%d and %d/%d; the rest are listed in §11b.  Two agents independently made the same" % (sum(1 for r in r8 if r[4]), n8, sum(1 for r in r8 if r[5]), n8))
+    out.append("  change (`ModuleImports::new` counting a tag import as a function import) for C01 and C25; R-KIND-MIX reported it under")
+    out.append("  C06–C09 at first sight and is now assigned to C01 and C25 as well.  Three agents again reported, unprompted, histories in")
+    out.append("  which the *unmodified* tree breaks C06/C11/C20 (import added before a lower-index conversion; a second `encode`; branch")
+    out.append("  flags never reset): these are the known findings F7, F13 and F16 of §5 — found again by readers who had never seen them.")
 out.append("")
 out.append("The thorough tier re-applies, for each property, every change listed here as caught by it and requires the check to fire.")
 out.append("")
-out.append("| id | what the change does | target check fires | fires under | deciding rules | first sight (rounds 2–7) |")
+out.append("| id | what the change does | target check fires | fires under | deciding rules | first sight (rounds 2–8) |")
 out.append("|---|---|---|---|---|---|")
 for name, prop, rnd, summ, tgt, fires, rules, fst, fsa in rows:
     out.append("| %s | %s | %s | %s | %s | %s |" % (name, summ, "yes" if tgt else "no", ",".join(fires) or "—", ", ".join(rules)[:110] or "—",
